@@ -116,4 +116,16 @@ InvUnimod(A) == LET g == GJInv(A) IN MScale(g.d, g.r)
 GJSound(A) == LET g == GJInv(A)
               IN  /\ g.d \in {Det(A), 0 - Det(A)}
                   /\ (g.d # 0 => MScale(Det(A), g.r) = MScale(g.d, Adj(A)))     \* r / d = adj / det
+
+\* ---- exact rational results: an integer matrix over a common positive denominator ----
+(* The inverse of ANY regular integer matrix, exactly: A^-1 = n / d with d = |det A| > 0    *)
+(* (d = 0 reports a singular matrix; n is then meaningless).  A rational matrix is carried   *)
+(* as the pair (integer numerator matrix, positive denominator); two of them are equal iff   *)
+(* they are after cross-multiplication (no reduction to lowest terms is needed).             *)
+MatAbs(x) == IF x < 0 THEN 0 - x ELSE x
+QInv(A) == LET g == GJInv(A)
+           IN  [n |-> MScale(IF g.d < 0 THEN -1 ELSE 1, g.r), d |-> MatAbs(g.d)]
+QEq(na, da, nb, db) == MScale(db, na) = MScale(da, nb)
+\* some entry of n / d is not an integer
+NonInteger(n, d) == \E r \in 1..NRows(n) : \E c \in 1..NCols(n) : n[r][c] % d # 0
 =============================================================================
